@@ -1,6 +1,13 @@
 
 // ---- appended by /verif/native/oracle.py (scratch copy only) ----
 #[cfg(test)]
+impl ConnectionPool {
+    pub(crate) fn verif_mark_validated(&self) {
+        self.validated.store(true, Ordering::Relaxed);
+    }
+}
+
+#[cfg(test)]
 pub(crate) mod verif_probe {
     //! End-to-end demonstration harness: real Client::startup / Client::handle over in-memory sockets, a real
     //! one-connection transaction-mode pool, and a scripted in-process "PostgreSQL" on loopback that tracks
